@@ -167,7 +167,8 @@ def make_scenario(rng, corpus_ids=None, gen_pool=None):
     elif k < 0.6:
         strat = {"kind": "random", "p": rng.choice([5e-4, 5e-3, 5e-2]), "p_shared": 0.5}
     elif k < 0.88:
-        strat = {"kind": "rendezvous", "q": rng.choice([0.1, 0.3, 0.6]), "burst": rng.choice([20, 60, 200]), "p": 1e-3}
+        strat = {"kind": "rendezvous", "q": rng.choice([0.1, 0.3, 0.6]), "burst": rng.choice([20, 60, 200]), "p": 1e-3,
+                 "same_line": rng.random() < 0.5}     # wait for another thread at the very same line (symmetric races) or anywhere in the file
     else:
         strat = {"kind": "phase", "p": 0.5}
     scn = {"threads": threads, "strategy": strat, "sched_seed": rng.randrange(1 << 30)}
